@@ -569,6 +569,8 @@ def _analyse_own(chk):
 
 def analyse(chk):
     _analyse_own(chk)
+    chk.guard(lambda c_: core.include_findings(c_, 'C09', files=['ciderpress/dft/baselines.py', 'ciderpress/dft/xc_evaluator'], rules=['hidden-write'],
+                                               why='a baseline or evaluator that overwrites its input arrays makes the returned derivatives inconsistent with the energy of the inputs the caller still holds'))
     chk.guard(lambda c_: core.include_findings(c_, 'C10', files=['ciderpress/lib/mod_cider/model_utils.c'], rules=None,
                                                why='a data race in the native kernel evaluators corrupts res/dres'))
 
